@@ -10,11 +10,18 @@
 (*                  (what fbb/b2f.go did): TLC finds the data race;           *)
 (*   "communicated" the session passes the count to the reporter through the  *)
 (*                  synchronisation itself (channel value / atomic counter).  *)
+(* The transfer's result (the received data, stored in the reported           *)
+(* proposal) is what the consumer of the Done report looks at                  *)
+(* (Proposal.DataIsComplete): StoreWhen = "beforeClose" is the code - the      *)
+(* store happens before the close that releases the final report -,            *)
+(* "afterClose" the deviation (a deferred store that runs after the deferred   *)
+(* close): the final report may miss the result, and the two accesses race.    *)
 EXTENDS Naturals, Sequences, TLC
 
 CONSTANTS Chunks,       \* chunks per transfer
           Ticks,        \* reporter wake-ups that may fall inside the transfer
-          Design        \* "shared" or "communicated"
+          Design,       \* "shared" or "communicated"
+          StoreWhen     \* "beforeClose" or "afterClose"
 
 Proc == {"S", "R"}                      \* session, reporter
 VC   == [Proc -> Nat]
@@ -33,13 +40,18 @@ VARIABLES done,        \* chunks moved by the session goroutine
           closed,      \* the session closed the notification channel (transfer over)
           reports,     \* sequence of reported counts
           finished,    \* the reporter delivered the Done report
-          race         \* a pair of conflicting accesses unordered by happens-before occurred
+          race,        \* a pair of conflicting accesses unordered by happens-before occurred
+          stored,      \* the session has stored the transfer's result in the reported object
+          resW, resR,  \* vector clocks of that write and of the final report's read of it (Zero: has not happened)
+          sawResult    \* what the consumer of the Done report found
 
-vars == <<done, vc, lastW, lastR, chanVC, chanVal, ticks, closed, reports, finished, race>>
+vars == <<done, vc, lastW, lastR, chanVC, chanVal, ticks, closed, reports, finished, race, stored, resW, resR, sawResult>>
+rvars == <<stored, resW, resR, sawResult>>
 
 Init == /\ done = 0 /\ vc = [p \in Proc |-> Zero] /\ lastW = Zero /\ lastR = Zero
         /\ chanVC = Zero /\ chanVal = 0 /\ ticks = 0 /\ closed = FALSE
         /\ reports = <<>> /\ finished = FALSE /\ race = FALSE
+        /\ stored = FALSE /\ resW = Zero /\ resR = Zero /\ sawResult = FALSE
 
 (* the session goroutine moves one chunk: a write access to the buffer *)
 MoveChunk ==
@@ -51,7 +63,18 @@ MoveChunk ==
        /\ done' = done + 1
        (* "communicated": the new count is published with the clock (atomic store / channel value) *)
        /\ IF Design = "communicated" THEN chanVC' = v /\ chanVal' = done + 1 ELSE UNCHANGED <<chanVC, chanVal>>
-    /\ UNCHANGED <<lastR, ticks, closed, reports, finished>>
+    /\ UNCHANGED <<lastR, ticks, closed, reports, finished, rvars>>
+
+(* the transfer is complete: the session stores the result in the object the reports carry *)
+StoreResult ==
+    /\ done = Chunks /\ ~stored
+    /\ IF StoreWhen = "beforeClose" THEN ~closed ELSE closed
+    /\ LET v == Tick(vc["S"], "S") IN
+       /\ vc' = [vc EXCEPT !["S"] = v]
+       /\ race' = (race \/ (resR # Zero /\ ~Leq(resR, v)))     \* conflicts with the final report's read not ordered before it
+       /\ resW' = v
+    /\ stored' = TRUE
+    /\ UNCHANGED <<done, lastW, lastR, chanVC, chanVal, ticks, closed, reports, finished, resR, sawResult>>
 
 (* the reporter wakes up (ticker / notification) and reports progress *)
 Report ==
@@ -67,32 +90,37 @@ Report ==
               /\ vc' = [vc EXCEPT !["R"] = v]
               /\ reports' = reports \o <<chanVal>>
               /\ UNCHANGED <<race, lastR>>
-    /\ UNCHANGED <<done, lastW, chanVC, chanVal, closed, finished>>
+    /\ UNCHANGED <<done, lastW, chanVC, chanVal, closed, finished, rvars>>
 
 (* the transfer is over: the session closes the channel (a release) *)
 Close ==
     /\ done = Chunks /\ ~closed
+    /\ StoreWhen = "beforeClose" => stored
     /\ closed' = TRUE
     /\ chanVC' = vc["S"] /\ chanVal' = done
-    /\ UNCHANGED <<done, vc, lastW, lastR, ticks, reports, finished, race>>
+    /\ UNCHANGED <<done, vc, lastW, lastR, ticks, reports, finished, race, rvars>>
 
 (* the reporter sees the close (an acquire) and delivers the final report, then exits *)
 Final ==
     /\ closed /\ ~finished
     /\ LET v == Tick(Join(vc["R"], chanVC), "R") IN
        /\ vc' = [vc EXCEPT !["R"] = v]
-       /\ race' = (race \/ (Design = "shared" /\ ~Leq(lastW, v)))   \* reading the buffer after the close is ordered
+       /\ race' = (race \/ (Design = "shared" /\ ~Leq(lastW, v))   \* reading the buffer after the close is ordered
+                         \/ (stored /\ ~Leq(resW, v)))              \* the consumer looks at the result
        /\ lastR' = IF Design = "shared" THEN v ELSE lastR
+       /\ resR' = v
+    /\ sawResult' = stored
     /\ reports' = reports \o <<done>>
     /\ finished' = TRUE
-    /\ UNCHANGED <<done, lastW, chanVC, chanVal, ticks, closed>>
+    /\ UNCHANGED <<done, lastW, chanVC, chanVal, ticks, closed, stored, resW>>
 
-Next == MoveChunk \/ Report \/ Close \/ Final
+Next == MoveChunk \/ StoreResult \/ Report \/ Close \/ Final
 Spec == Init /\ [][Next]_vars /\ WF_vars(Next)
 
 NoRace == ~race
 ReportsInRange == \A i \in DOMAIN reports : reports[i] <= Chunks
 FinalIsTotal == finished => reports[Len(reports)] = Chunks
 ExactlyOneFinal == [][finished => finished']_vars        \* nothing is reported after the Done report (Report needs ~finished)
+FinalSeesResult == finished => sawResult               \* the Done report of a completed transfer shows a complete message
 Termination == <>finished
 =============================================================================
